@@ -14,6 +14,7 @@ from ..provider.location import GenericParamLoc
 from ..struct_trail import append_trail, render_trail_as_note
 from ..type_tools import is_subclass_soft
 from ..type_tools.basic_utils import is_named_tuple_class
+from ..type_tools.fundamentals import is_pydantic_class
 from .json_schema.definitions import JSONSchema
 from .json_schema.request_cls import JSONSchemaRequest
 from .json_schema.schema_model import JSONSchemaType
@@ -64,7 +65,8 @@ class IterableProvider(MorphingProvider):
         if issubclass(norm.origin, collections.abc.Mapping):
             raise CannotProvide
 
-        if is_named_tuple_class(norm.origin):  # generic NamedTuple with one type parameter is a model, not an iterable
+        # generic NamedTuple or pydantic model with one type parameter is a model, not an iterable
+        if is_named_tuple_class(norm.origin) or is_pydantic_class(norm.origin):
             raise CannotProvide
 
         return norm, arg
